@@ -7,4 +7,10 @@ func init() {
 		Exhaustive: "all Bst histories of length <= 5 (quick) / <= 6 (thorough) over {insert,remove,contains} x 3 values, for float64 {1,2,3} and int8 {-128,0,127}",
 		Shards: [2]int{16, 16}, MinEvals: [2]int{100, 1000},
 	})
+	reg(&propCfg{
+		ID: "C16", Level: "exploration",
+		Rule: "every stream helper is run inside the timer-free pipeline runner (independent reader per output, producers must reach close, goroutine census afterwards) and compared exactly with a pure slice model: exhaustively for all input lengths 0-6 (0-4 / 0-3 per stream for the 2- and 3-input zippers, all combinations of unequal lengths) x all parameters 0-8 x 4 schedule parameterisations x element types int, float64, int64 (distinct, signed elements), plus random lengths up to 200 with random capacities, pacing and GOMAXPROCS. A case is counted as distinct non-trivial per (helper, type, length tuple with a non-empty first input, parameter tuple).",
+		Exhaustive: "lengths 0-6 x parameters 0-8 per helper (Operate: all length pairs 0-4; Operate3: all triples 0-3; Since: all sequences of length <= 7 over 3 letters; Seq: from/to in [-3,6], increments 1-3)",
+		Shards: [2]int{16, 16}, MinEvals: [2]int{100, 100},
+	})
 }
